@@ -231,6 +231,12 @@ pub fn cmd_worker(pos: &[String], flags: &BTreeMap<String, String>) -> i32 {
     let offset = flag_u64(flags, "offset").unwrap_or(0);
     let deadline_s = flag_u64(flags, "deadline").unwrap_or(3600);
     let want_digests = flags.contains_key("digests");
+    // a runaway in the code under test (or in the harness) must end as a dead worker, not as a
+    // machine without memory: 12 GiB of address space per worker is far above anything legitimate
+    unsafe {
+        let lim = libc::rlimit { rlim_cur: 12 << 30, rlim_max: 12 << 30 };
+        libc::setrlimit(libc::RLIMIT_AS, &lim);
+    }
     let start = Instant::now();
     let mut rep = WorkerReport::default();
     let mut fps: BTreeSet<u64> = BTreeSet::new();
